@@ -4,7 +4,11 @@
 set -u
 cd /verif
 export GOFLAGS=-mod=mod GOPROXY=off
-unset GOTOOLCHAIN GOSUMDB 2>/dev/null || true
+unset GOSUMDB 2>/dev/null || true
+# go1.26.8 (pre-installed) is used for the check binaries: testing/synctest of go1.25.0 aborts with
+# 'WaitGroup.Add called from multiple synctest bubbles' when bubbles run in parallel (fixed later).
+export GOTOOLCHAIN=local
+GO=go1.26.8
 mkdir -p build build/tmp evidence replay overlay
 cat > overlay/overlay.json <<'JSON'
 {"Replace": {"/repo/ui/web.go": "/verif/overlay/ui_web_stub.go"}}
@@ -13,11 +17,11 @@ JSON
 rc=0
 for d in props/c*/; do
   pkg=$(basename "$d")
-  go test -c -tags verif -overlay /verif/overlay/overlay.json -o "build/$pkg.test" "./props/$pkg" || rc=1
+  $GO test -c -tags verif -overlay /verif/overlay/overlay.json -o "build/$pkg.test" "./props/$pkg" || rc=1
 done
 RACE_PROPS=$(cat props/RACE_PROPS 2>/dev/null)
 for P in $RACE_PROPS; do
   pkg=$(echo "$P" | tr 'C' 'c')
-  [ -d "props/$pkg" ] && { go test -c -race -tags verif -overlay /verif/overlay/overlay.json -o "build/$pkg.race.test" "./props/$pkg" || rc=1; }
+  [ -d "props/$pkg" ] && { $GO test -c -race -tags verif -overlay /verif/overlay/overlay.json -o "build/$pkg.race.test" "./props/$pkg" || rc=1; }
 done
 exit $rc
